@@ -1497,9 +1497,24 @@ def np_sum(it, a):
     raise Unsupported("sum")
 
 
+def _nonempty_or_raise(it, n, what):
+    """numpy raises ValueError for the maximum / minimum of an EMPTY array: the array being non-empty is an obligation
+    (never an assumption - an assumed witness index in an empty array would make the path vacuous)"""
+    p = it.path
+    ne = (n > 0) if not isinstance(n, int) else (n > 0)
+    if isinstance(ne, bool) and ne:
+        return
+    if not p.prove(ne, f"numpy.{what}/array_non-empty", kind="domain", desc=f"np.{what} of an array that may be empty (ValueError: zero-size array to reduction operation)", props=it.config.get("implicit_props")):
+        if isinstance(ne, bool) or it.path.choose(f"np.{what} of an empty array raises ValueError"):
+            raise PyRaise(ExcVal(ValueError, (f"zero-size array to reduction operation {what}imum which has no identity",)), origin=f"numpy.{what}")
+    if not isinstance(ne, bool):
+        p.assume(ne)
+
+
 def np_max(it, a):
     v = _vec_of(a)
     p = it.path
+    _nonempty_or_raise(it, v.n, "max")
     M = p.real("vmax") if v.kind == "real" else p.int("vmax")
     p.add_ufact(UFact(1, lambda i: lift(v.f(i), v.kind) <= M, [(0, v.n)], "max-bounds"))
     w = p.int("argmax")
@@ -1526,6 +1541,7 @@ def np_min(it, a):
         return tag_np(it, M)
     v = _vec_of(a)
     p = it.path
+    _nonempty_or_raise(it, v.n, "min")
     M = p.real("vmin") if v.kind == "real" else p.int("vmin")
     p.add_ufact(UFact(1, lambda i: lift(v.f(i), v.kind) >= M, [(0, v.n)], "min-bounds"))
     w = p.int("argmin")
